@@ -1238,6 +1238,9 @@ func (g *Gen) genC19() {
 				val := r.genValue(t, false, method, &MsgSpec{sane: true})
 				if t == 5 {
 					val = "SIP/2.0/UDP " + r.Host() + ";branch=" + r.Pick("z9hG4bK", "") + r.Pick(r.Token(4, 12), "nashds8", r.Alnum(3, 7), r.Alnum(3, 7), "a.b-c", "deadbeef00112233") + r.Pick("", "", ";rport", ", SIP/2.0/TCP h2;branch=zz-9")
+					if r.P(15) { // an old-style first Via without a branch parameter
+						val = "SIP/2.0/UDP " + r.Host() + r.Pick("", ";received=1.2.3.4", ";rport;ttl=1")
+					}
 				}
 				hs = append(hs, sigHdr{t, name + ": " + val + "\r\n", true})
 			}
@@ -1307,7 +1310,7 @@ func (g *Gen) genC19() {
 			}
 		}
 		for k, h := range hs { // an older via appended to the first Via header line (comma separated list)
-			if h.typ == 5 && !strings.Contains(h.raw, ",") {
+			if h.typ == 5 && !strings.Contains(h.raw, ",") && strings.Contains(h.raw, "branch=") {
 				l := append([]sigHdr{}, hs...)
 				l[k].raw = strings.TrimSuffix(h.raw, "\r\n") + r.Pick(",", ", ", " ,\r\n ") + "SIP/2.0/TCP older.example.com;branch=z9hG4bK" + r.Pick("o.l-d", "x_1", "p+q") + "\r\n"
 				variants = append(variants, build(l))
@@ -1338,6 +1341,38 @@ func (g *Gen) genC19() {
 		// small capacities on the base message
 		for _, c := range []int{0, 1, 2, 3, 5} {
 			lines = append(lines, parseSess(fmt.Sprintf("msg %d 2", c), base, 0, []int{len(base)}, 0, false, "G"))
+		}
+		nsmall := 5
+		// the same message on an object that parsed another (longer) request before and was reset: a caller-supplied
+		// header array keeps its slots across Reset / Init
+		nreuse := 0
+		if r.P(50) {
+			var l []sigHdr
+			for k := 0; k < 1+r.N(4); k++ {
+				l = append(l, filler())
+			}
+			for _, t := range []int{5, 10, 6, 3, 4, 1, 2, 8, 5, 10} {
+				v := r.genValue(t, false, "INVITE", &MsgSpec{sane: true})
+				if t == 5 {
+					v = "SIP/2.0/UDP h9;branch=z9hG4bKprev"
+				}
+				l = append(l, sigHdr{t, hdrNames[t][0] + ": " + v + "\r\n", true})
+			}
+			prev := "INVITE sip:prev@h SIP/2.0\r\n"
+			for _, h := range l {
+				prev += h.raw
+			}
+			prev += "\r\n"
+			fin := base
+			if r.P(70) {
+				fin = variants[0] // with fillers: the scan for fingerprinted headers does not stop early
+			}
+			cut := len(prev)
+			if r.P(25) {
+				cut = r.N(len(prev) + 1)
+			}
+			lines = append(lines, fmt.Sprintf("msg %d %s | B %s | P %d 0 0 | %s | B %s | P %d 0 0 | G", 20+r.N(20), capStr(r, 4), hx(prev), cut, r.Pick("R", "R", "I"), hx(fin), len(fin)))
+			nreuse = 1
 		}
 		nv := len(variants)
 		isInvite := method == "INVITE"
@@ -1390,7 +1425,13 @@ func (g *Gen) genC19() {
 					return fmt.Sprintf("signature changed by %q: %s", vdesc[k], firstDiff(last(v), sig))
 				}
 			}
-			for k := 1 + nv; k < len(out); k++ {
+			if nreuse == 1 {
+				v := last(splitOut(out[len(out)-1]))
+				if v != sig {
+					return fmt.Sprintf("signature on an object reused after Reset / Init differs from the one on a new object: %s", firstDiff(v, sig))
+				}
+			}
+			for k := 1 + nv; k < 1+nv+nsmall; k++ {
 				v := last(splitOut(out[k]))
 				if v != sig && !strings.HasSuffix(v, "err=ErrHdrTrunc") {
 					return fmt.Sprintf("header array too small: neither the same signature nor a truncated indication: %s", tailOf(v, 80))
